@@ -217,6 +217,9 @@ func c29ErrClass(err error) string {
 	for _, tail := range []string{" before flush request could be sent", " while waiting for flush response"} {
 		msg = strings.ReplaceAll(msg, tail, " (around the flush request)")
 	}
+	// Likewise "failed" (synchronizing closed) and "terminated" (done closed)
+	// are both ready when the loop has just been cancelled.
+	msg = strings.ReplaceAll(msg, "synchronization terminated", "synchronization failed")
 	return "err=" + msg
 }
 
